@@ -99,6 +99,7 @@ static std::string call_reader(const std::string& which, const std::string& path
 static std::vector<std::string> sweep(const std::string& which, const std::vector<uint8_t>& bytes, size_t lo, size_t hi) {
     std::vector<std::string> res(hi + 1);
     size_t next = lo;
+    int hangs = 0;
     std::string path = scratch + "/cut.bin";
     while (next <= hi) {
         int fd[2];
@@ -140,8 +141,15 @@ static std::vector<std::string> sweep(const std::string& which, const std::vecto
         size_t done = any ? last + 1 : next;
         if (WIFSIGNALED(st) || (WIFEXITED(st) && WEXITSTATUS(st) != 0)) {
             if (done <= hi) {
-                res[done] = (WIFSIGNALED(st) && WTERMSIG(st) == SIGALRM) ? "HANG" : "CRASH";
+                bool hang = WIFSIGNALED(st) && WTERMSIG(st) == SIGALRM;
+                res[done] = hang ? "HANG" : "CRASH";
                 done++;
+                // a reader that hangs on cut after cut would cost a minute each: after three, the remaining cuts of this sweep
+                // are not run (the first hang is the failing input; the oracle stops at it anyway)
+                if (hang && ++hangs >= 3) {
+                    for (size_t n = done; n <= hi; n++) res[n] = "HANG";
+                    done = hi + 1;
+                }
             }
         }
         next = done;
